@@ -160,6 +160,9 @@ def gen_one(rng, tier, index):
             # before the second load the program binds other handles to some
             # of the resource paths (which ones: by position)
             'rebind': rng.choice([0, 0, 1, 2, 3]),
+            # ... or moves the world handle into ANOTHER resource tree
+            # (same paths, other handles) before loading it again
+            'move_tree': rng.random() < 0.25,
             # (dictionary entry point) the lists of the description are
             # given as one-shot iterables: generators, map objects
             'one_shot': rng.random() < 0.3}
@@ -622,6 +625,15 @@ def _run(case, desper, fx, res, tmp):
                 root[p] = handles[p]
                 handles[p]()
                 res.stats['paths_rebound_before_reload'] += 1
+        if case.get('move_tree') and not case.get('standalone') \
+                and getattr(handle, 'parent', None) is not None:
+            root2 = desper.ResourceMap()
+            for p in sorted(handles):
+                handles[p] = RH('tree2:' + p)
+                root2[p] = handles[p]
+                handles[p]()
+            root2[case['where']] = handle
+            res.stats['world_handle_moved_to_another_tree'] += 1
         mark = len(fx.LOG)
         handle.clear()
         try:
